@@ -608,8 +608,8 @@ def check_C04(chk, tier, seed):
     elif lim is None:
         chk.violation("no nesting limit: the decoder recursed through every depth tried (up to 131000 levels in a 1 MiB frame)",
                       dict(case="nested groups", impl="accepted all depths"))
-    nh = 300 if tier == "quick" else 4000
-    frames = corpus_frames(rng, eng, nh)[: (120 if tier == "quick" else 2000)]
+    nh = 300 if tier == "quick" else 1500
+    frames = corpus_frames(rng, eng, nh)[: (120 if tier == "quick" else 500)]     # thorough: every length rewrite, truncation and single-bit flip of each
     fam = frame_families(rng, eng, frames, 25 if tier == "quick" else 80, thorough=(tier == "thorough"))
     fam += [("regress", c.split()[1], bytes.fromhex(c.split()[2][1:]), False) for c in regress_cases("C04") if c.startswith("X ")]
     fam += [("display-stress", did, f, True) for did, f in display_stress_frames(eng)]
